@@ -115,7 +115,10 @@ fn b64(bytes: &[u8]) -> String {
   base64::encode(bytes)
 }
 
-const MALFORMED: [&str; 30] = [
+const MALFORMED: [&str; 33] = [
+  "eval_long_nonascii_broken_context",
+  "add_b64_long_nonascii_not_xml",
+  "tck_long_nonascii_unknown_model",
   "eval_path_bad_percent_encoding",
   "eval_path_too_deep",
   "eval_path_empty_segment",
@@ -163,13 +166,25 @@ fn build_request(s: &Setup, r: &Value) -> Built {
   let kind = pstr(r, "kind");
   let model_name = |key: &str| by_key(&s.models, key).map(|m| m.name).unwrap_or("none").to_string();
   let xml = |key: &str| by_key(&s.models, key).map(|m| m.xml.clone()).unwrap_or_default();
-  let json_post = |path: &str, body: String, op: Op, label: String| Built {
-    method: "POST",
-    path: path.to_string(),
-    content_type: Some("application/json"),
-    body: body.into_bytes(),
-    op,
-    label,
+  // harmless variations of a well-formed JSON request: media type parameters, letter case, an extra member
+  let variant = pu64(r, "variant") % 4;
+  let json_post = |path: &str, body: String, op: Op, label: String| {
+    let mut body = body;
+    if variant == 2 && body.starts_with('{') && body.len() > 2 {
+      body = format!("{{\"comment\": [1, {{\"x\": null}}], {}", &body[1..]);
+    }
+    Built {
+      method: "POST",
+      path: path.to_string(),
+      content_type: Some(match variant {
+        1 => "application/json; charset=utf-8",
+        3 => "Application/JSON",
+        _ => "application/json",
+      }),
+      body: body.into_bytes(),
+      op,
+      label,
+    }
   };
   match kind {
     "info" => Built {
@@ -380,6 +395,19 @@ fn build_request(s: &Setup, r: &Value) -> Built {
         },
         "tck_broken_json" => raw("POST", "/tck/evaluate", js, b"{\"model\": \"ma\", \"invocable\"".to_vec(), true),
         "unknown_route" => raw("POST", "/definitions/no-such-endpoint", js, b"{}".to_vec(), true),
+        // error answers that quote several KiB of multi-byte text back (0..3 bytes of ASCII in front)
+        "eval_long_nonascii_broken_context" => {
+          let mut rng = Rng::new(pu64(r, "n"));
+          raw("POST", &format!("/evaluate/{}/d", percent_encode(&model_name(m))), None, format!("{{s: \"{}\" t: 1}}", crate::jsonval::long_text(&mut rng)).into_bytes(), true)
+        }
+        "add_b64_long_nonascii_not_xml" => {
+          let mut rng = Rng::new(pu64(r, "n"));
+          raw("POST", "/definitions/add", js, json!({"content": b64(crate::jsonval::long_text(&mut rng).as_bytes())}).to_string().into_bytes(), true)
+        }
+        "tck_long_nonascii_unknown_model" => {
+          let mut rng = Rng::new(pu64(r, "n"));
+          raw("POST", "/tck/evaluate", js, json!({"model": crate::jsonval::long_text(&mut rng), "invocable": "d", "input": []}).to_string().into_bytes(), true)
+        }
         "eval_path_bad_percent_encoding" => raw("POST", "/evaluate/%ff%fe/d", None, b"{}".to_vec(), true),
         "eval_path_too_deep" => raw("POST", "/evaluate/ma/d/extra", None, b"{}".to_vec(), true),
         "eval_path_empty_segment" => raw("POST", "/evaluate//d", None, b"{}".to_vec(), true),
@@ -873,7 +901,7 @@ fn worker_main(w: WorkerCtx, s: &'static Setup) {
           }
         }
         if pbool(netf, "oversize") {
-          let limit = if built.content_type == Some("application/json") { 4 * 1024 * 1024 } else { 256 * 1024 };
+          let limit = if built.content_type.map(|c| c.to_ascii_lowercase().starts_with("application/json")).unwrap_or(false) { 4 * 1024 * 1024 } else { 256 * 1024 };
           body.resize(limit + 1024, b' ');
         }
         let nseg = (pu64(netf, "segments") as usize).max(1);
@@ -893,7 +921,7 @@ fn worker_main(w: WorkerCtx, s: &'static Setup) {
         let mut built_op = built.op.clone();
         let mut label = built.label.clone();
         if damaged {
-          let json_endpoint = built.content_type == Some("application/json");
+          let json_endpoint = built.content_type.map(|c| c.to_ascii_lowercase().starts_with("application/json")).unwrap_or(false);
           let hard = reset || pbool(netf, "oversize");
           // a cut strictly inside a JSON document always leaves an invalid one; a flipped bit may not
           let cut = netf.get("truncate").map(|v| !v.is_null()).unwrap_or(false);
@@ -1716,7 +1744,7 @@ pub fn loopback_pass(seed: u64) -> ExtraPass {
   for (i, r) in script.iter().enumerate() {
     let mut built = build_request(s, r);
     if pbool(&r["net"], "oversize") {
-      let limit = if built.content_type == Some("application/json") { 4 * 1024 * 1024 } else { 256 * 1024 };
+      let limit = if built.content_type.map(|c| c.to_ascii_lowercase().starts_with("application/json")).unwrap_or(false) { 4 * 1024 * 1024 } else { 256 * 1024 };
       built.body.resize(limit + 1024, b' ');
       built.op = Op::Malformed(true);
       built.label = format!("{} [oversize]", built.label);
@@ -1968,6 +1996,9 @@ impl Sim for C18 {
             _ => {}
           }
           if pstr(&r, "kind") != "clock" {
+            if rng.chance(1, 4) {
+              r["variant"] = json!(1 + rng.index(3));
+            }
             let k = pstr(&r, "kind").to_string();
             let mutating = matches!(k.as_str(), "add" | "replace" | "remove");
             let is_eval = matches!(k.as_str(), "eval" | "echo" | "tod");
